@@ -93,7 +93,7 @@ def ensure_fresh(env):
     return h
 
 
-def build_rt(features=(), extra_env=None, tag=None, package="rt", toolchain=None, extra_args=(), target_dir=None):
+def build_rt(features=(), extra_env=None, tag=None, package="rt", toolchain=None, extra_args=(), target_dir=None, profile=None):
     """Build a harness binary against /repo's current working tree. Returns path of a private copy of it."""
     env = base_env()
     if extra_env:
@@ -107,6 +107,9 @@ def build_rt(features=(), extra_env=None, tag=None, package="rt", toolchain=None
         cmd = ["cargo"] + (["+" + toolchain] if toolchain else []) + ["build", "--offline", "-p", package, "--message-format=json-render-diagnostics"]
         if feats:
             cmd += ["--features", feats]
+        if profile:
+            cmd += ["--profile", profile]
+            tag = tag + "-" + profile
         cmd += list(extra_args)
         t0 = time.time()
         p = subprocess.run(cmd, cwd=HARNESS, env=env, stdout=subprocess.PIPE, stderr=subprocess.PIPE, text=True)
@@ -783,6 +786,12 @@ def p_rejects(o):
                 continue
             # rejected: the error must be about the ill-formed construct
             inside = [dg for dg in ng_d if any(l is not None and lo <= l <= hi for l in dg["lines"])]
+            if n["group"].startswith("derive/") and not any(dg.get("code") is None for dg in inside):
+                # only rustc errors inside the emitted impl: the derive did emit an implementation instead of reporting the error itself
+                o.violations.append({"key": "C20/%s/impl-emitted" % n["group"], "msg": "the derive emits an implementation for an ill-formed input (%s) instead of reporting a compile error; rustc then rejects the generated code:\n%s\n%s" % (
+                    n["group"], region.strip(), (ng_d[0]["rendered"] if ng_d else "")[:600]), "case": {"program": n["name"], "tags": n["tags"], "source": src}})
+                o.violation_count += 1
+                continue
             if not inside:
                 o.inconclusive.append("%s is rejected, but no error points into the ill-formed construct: %s" % (n["name"], (ng_d[0]["rendered"] if ng_d else "?")[:300]))
                 continue
@@ -1005,6 +1014,14 @@ def p_table(o):
     o.need(["intern_new", "intern_duplicate", "get_hit", "get_miss", "resolve_in_range", "resolve_out_of_range", "elements_compared",
             "register_new", "register_duplicate", "register_self_reference", "builder_get_hit", "builder_get_out_of_range", "finish_calls", "next_type_id_calls"])
     o.extra["hooks"] = "see hook_invariant_checks counter (0 => hooks unavailable on this tree)"
+    if o.tier == "thorough":
+        # the same workload under AddressSanitizer and a Miri slice: aimed at an `unsafe` indexing shortcut appearing in resolve / get
+        try:
+            aexe = build_asan()
+            asan_pass(o, aexe, "table", ["--cases", 1_000_000, "--first", 50_000_000, "--max-secs", 120], timeout=900, key="C12/asan-report")
+        except Inconclusive as e:
+            o.inconclusive.append("ASan build unavailable: %s" % str(e)[-400:])
+        miri_pass(o, "table", ["--cases", 100_000, "--ops", 25], shards=NCPU, secs=150, key="C12/miri-ub")
     o.assumptions = ["list model: Vec + linear search", "Symbol ids observed through into_untracked().id"]
 
 
@@ -1012,9 +1029,13 @@ def p_ident(o):
     exe = build_rt()
     o.replay_base = {"sub": "ident"}
     rt_pass(o, exe, "ident", ["--cases", sizes(o.tier, 300_000, 3_000_000), "--maxlen", sizes(o.tier, 6, 7)], timeout=sizes(o.tier, 300, 1500))
-    o.rule = ("exhaustive: every string of length <= L (L=6 quick, 7 thorough) over the class-representative alphabet {a,Z,_,7,r,#,:,space,-,e-acute} as a single segment; "
+    # the same workload in a build without debug assertions: validation must not live in debug_assert! only
+    exe2 = build_rt(profile="nodebug")
+    rt_pass(o, exe2, "ident", ["--cases", sizes(o.tier, 100_000, 1_000_000), "--maxlen", sizes(o.tier, 5, 6)], timeout=sizes(o.tier, 300, 1500), prefix="nodebug_", name="C18-ident-nodebug")
+    o.need(["accepted", "rejected", "new_accepted", "new_rejected"], "nodebug_")
+    o.rule = ("exhaustive: every string of length <= L (L=6 quick, 7 thorough) over the class-representative alphabet {a,Z,_,7,r,#,:,space,-,e-acute,superscript-two} as a single segment (through iterators with exact / inexact / no size hint); "
               "every segment list of length <= 3 over a 40-string pool; Path::new over (40 idents x 1649 modules); seeded new_with_replace tables. "
-              "Oracle: explicit DFA for (r#)?[A-Za-z_][A-Za-z0-9_]*. distinct = distinct inputs; all inputs with >=1 segment are non-trivial.")
+              "Oracle: explicit DFA for (r#)?[A-Za-z_][A-Za-z0-9_]*. The workload runs in the dev profile and again in a profile without debug assertions. distinct = distinct inputs; all inputs with >=1 segment are non-trivial.")
     o.extra["exhaustive"] = True
     o.extra["exhaustive_scope"] = "single segments up to the length bound and segment lists up to 3 over the pool are enumerated completely; replacement tables are sampled"
     o.need(["accepted", "rejected", "new_accepted", "new_rejected", "accessor_checks", "replace_cases"])
